@@ -5,6 +5,46 @@ import os
 
 REPO = os.environ.get("VERIF_REPO", "/repo")
 
+
+# ------------------------------------------------------------------ a bound on the work of ONE call into the implementation
+
+class CaseTimeout(BaseException):
+    """the call did not finish within its CPU budget.  A BaseException: the broad `except Exception` clauses of the library and of the
+    adapter must not swallow it (harness/props/C11.py turns it into an ordinary exception at the boundary of impl())"""
+
+
+class cpu_limit:
+    """`with cpu_limit(secs):` raises CaseTimeout inside the block once the PROCESS has used `secs` more CPU seconds (user + sys;
+    ITIMER_PROF - independent of the load of the machine).  Only the outermost block arms the timer; outside the main thread, or
+    without setitimer, the block runs unbounded.  Why: a changed implementation may not terminate on an input (Automorphism that
+    stops excluding component swaps enumerates 12! maps on twelve isolated atoms) - the stage limit would then be the only bound,
+    every other case of the run would be lost with it, and shrinking would call the oracle on such inputs over and over."""
+    depth = 0
+
+    def __init__(self, secs):
+        self.secs = secs
+        self.armed = False
+
+    def __enter__(self):
+        import signal
+        import threading
+        cpu_limit.depth += 1
+        if cpu_limit.depth == 1 and hasattr(signal, "setitimer") and threading.current_thread() is threading.main_thread():
+            def _raise(signum, frame):
+                raise CaseTimeout("no answer within %g CPU-s" % self.secs)
+            self.old = signal.signal(signal.SIGPROF, _raise)
+            signal.setitimer(signal.ITIMER_PROF, self.secs, 1.0)      # fires again every CPU-second until the block is left
+            self.armed = True
+        return self
+
+    def __exit__(self, *exc):
+        import signal
+        cpu_limit.depth -= 1
+        if self.armed:
+            signal.setitimer(signal.ITIMER_PROF, 0)
+            signal.signal(signal.SIGPROF, self.old)
+        return False
+
 from . import graphs as GG
 
 NODE5 = [{"element": e, "charge": 0, "hcount": 0} for e in ("C", "O")]
@@ -168,8 +208,9 @@ def dedup_case(rng, k):
                             orders=(1, 1, 1, 2), charges=(0,), hcounts=(0, 1), first_id=rng.choice([1, 21]))
         strat = rng.choice(["all", "all", "comp", "bt"])
         try:
-            ms = SSE.find_subgraph_mappings(GG.to_nx(H), GG.to_nx(P), node_attrs=["element", "charge"], edge_attrs=["order"], strategy=strat)
-        except Exception:
+            with cpu_limit(10):
+                ms = SSE.find_subgraph_mappings(GG.to_nx(H), GG.to_nx(P), node_attrs=["element", "charge"], edge_attrs=["order"], strategy=strat)
+        except (Exception, CaseTimeout):
             continue
         if not ms:
             continue
@@ -236,8 +277,9 @@ def repeated_species_cases(tier, rng):
                 if tier == "quick" and (mi + pi) % 2 and hn == "shuf":
                     continue
                 try:
-                    ms = SSE.find_subgraph_mappings(GG.to_nx(H), GG.to_nx(P), node_attrs=["element", "charge"], edge_attrs=["order"], strategy="all")
-                except Exception:
+                    with cpu_limit(10):
+                        ms = SSE.find_subgraph_mappings(GG.to_nx(H), GG.to_nx(P), node_attrs=["element", "charge"], edge_attrs=["order"], strategy="all")
+                except (Exception, CaseTimeout):
                     continue
                 ms = [[[p, h] for p, h in m.items()] for m in ms][:60]
                 if not ms:
@@ -529,6 +571,24 @@ def keys_cases(tier, rng):
             ("2tri-one-charged", with_label(disjoint(GG.cycle(3), GG.cycle(3)), 0, charge=1)),
             ("K2_3-dbl", _sym_break("K2_3", GG.complete_bipartite(2, 3), rng)[-1][1])]
     out = []
+    # a CONFIGURED attribute absent on some atoms / bonds only, next to symmetry-equivalent atoms that carry the default value or
+    # another value explicitly: both classes must use ONE rule for the absent value (charge 0, every other node key "*", bond keys
+    # 1.0) - with two rules the estimate separates atoms the exact analysis exchanges, or the other way round
+    def bare(i, **kw):
+        return [i, dict(kw)]
+    pa1 = {"nodes": [bare(1, element="C", charge=0, hcount=0, aromatic=False), bare(2, element="C", charge=0, hcount=0, aromatic=False),
+                     bare(3, element="C", charge=0)],
+           "edges": [[1, 2, {"order": 1, "bond": 1}], [2, 3, {"order": 1}]]}
+    pa2 = {"nodes": [bare(1, element="C"), bare(2, element="C", charge=0, hcount=0), bare(3, element="C", hcount=0, aromatic=False),
+                     bare(4, element="C", charge=0, hcount=1, aromatic=False), bare(5, element="C", charge=0, aromatic=True)],
+           "edges": [[1, k, {"order": 1}] for k in (2, 3, 4)] + [[1, 5, {}]]}
+    pa3 = {"nodes": [bare(1, kind="x"), bare(2), bare(3, kind="*"), bare(4, kind="x")], "edges": [[1, 2, {}], [2, 3, {"bond": 1.0}], [3, 4, {}], [4, 1, {"bond": 1}]]}
+    PA_CONFIGS = [(["hcount"], None), (["aromatic"], None), (["element", "hcount"], ["order"]), (["charge"], None),
+                  (["element", "charge", "aromatic", "hcount"], ["order"]), (["aromatic", "hcount"], ["bond"]), (["kind"], ["bond"]),
+                  (["kind", "hcount"], ["order", "bond"])]
+    for name, g in (("absent-some-path", pa1), ("absent-some-star", pa2), ("absent-some-ring", pa3)):
+        for ci, (nk, ek) in enumerate(PA_CONFIGS):
+            out.append(dict(kind="keys", name="keys/%s/%d" % (name, ci), g=g, nk=nk, ek=ek))
     for name, g in base:
         g = _with_extra(g)
         for ci, (nk, ek) in enumerate(KEY_CONFIGS):
@@ -638,6 +698,9 @@ def history_cases(tier, rng):
 
 MOLS = ["c1ccccc1", "CC(C)(C)c1ccccc1", "OC(=O)CCC(=O)O", "C1CCCCC1", "c1ccc2ccccc2c1", "CC(C)CC(C)C", "OB(O)c1ccc(Br)cc1",
         "[O-][N+](=O)c1ccccc1", "[H]C([H])([H])[H]", "[H]C([H])=C([H])[H]", "C1CC1.C1CC1", "CCO.CCO.O", "[NH4+].[Cl-]", "C[N+](C)(C)C",
+        # one bonded molecule (or none) plus LONE atoms with equal labels: the analysis counts per component - the lone atoms are
+        # not exchanged (component swaps excluded), the reported number is that of the molecule
+        "[Ca+2].[Cl-].[Cl-]", "CCO.O.O", "[Na+].[Na+].[O-]C([O-])=O", "[Cl-].[Cl-].[Cl-]", "O.O", "[K+].[Br-]",
         "ClC(Cl)(Cl)Cl", "FC(F)(F)C(F)(F)F", "c1ccncc1", "C1=CC=CC=C1", "O=C=O", "N#N", "CC(=O)OC(C)=O", "C12C3C4C1C5C2C3C45"]
 
 
@@ -653,8 +716,9 @@ def mol_cases(tier, rng):
     out = []
     for smi in smis:
         try:
-            G = smiles_to_graph(smi, drop_non_aam=False, use_index_as_atom_map=True)
-        except Exception:
+            with cpu_limit(10):
+                G = smiles_to_graph(smi, drop_non_aam=False, use_index_as_atom_map=True)
+        except (Exception, CaseTimeout):
             continue
         if G is None or G.number_of_nodes() == 0 or G.number_of_nodes() > (25 if tier == "quick" else 45):      # model cost: 0.1-3 s each
             continue
@@ -732,7 +796,12 @@ def orbacc_cases(tier, rng):
     for k in range(30 if tier == "quick" else 300):
         g = random_sym_graph(rng)
         G = GG.to_nx(g)
-        add("graph#%d" % k, [sorted(o) for o in AutoEst(G, max_iter=rng.choice([0, 1, 10])).fit().orbits], [sorted(o) for o in Automorphism(G).orbits])
+        mi = rng.choice([0, 1, 10])
+        try:
+            with cpu_limit(10):
+                add("graph#%d" % k, [sorted(o) for o in AutoEst(G, max_iter=mi).fit().orbits], [sorted(o) for o in Automorphism(G).orbits])
+        except CaseTimeout:
+            continue
     return out
 
 
